@@ -40,8 +40,24 @@ ROWS = [
 ]
 
 
-def _action_kind(call, fparams):
+def _callee(call, fi):
+  """the called expression, a local that merely names it resolved"""
+  f = call.func
+  if fi is not None and isinstance(f, ast.Name):
+    try:
+      x = tpl.expand(fi, f, call)
+    except Exception:
+      x = f
+    if isinstance(x, ast.Call) and core.dotted(x.func) == 'py_builtins.overload_of':
+      return x
+  return f
+
+
+def _action_kind(call, fparams, fi=None):
   d = core.dotted(call.func)
+  if isinstance(_callee(call, fi), ast.Call) and core.dotted(
+      _callee(call, fi).func) == 'py_builtins.overload_of':
+    return 'builtin'
   if d in ('_call_unconverted',):
     return 'unconverted'
   if d in ('_fall_back_unconverted',):
@@ -79,7 +95,7 @@ def check(model, rep, tier):
   actions = {}   # cfg node -> list of (kind, call)
   for i in range(len(g.nodes)):
     for c in pycfg.calls_at(g, i):
-      k = _action_kind(c, fparams)
+      k = _action_kind(c, fparams, cc)
       if k:
         actions.setdefault(i, []).append((k, c))
   rep.unit('cfg nodes of converted_call', len(g.nodes))
@@ -133,7 +149,7 @@ def check(model, rep, tier):
         st = [core.norm(x.value) for x in c.args if isinstance(x, ast.Starred)]
         kws = [core.norm(x.value) for x in c.keywords if x.arg is None]
         ok = st == ['args'] and kws in ([], ['kwargs']) and \
-            core.norm(c.func.args[0]) == 'f'
+            core.norm(_callee(c, cc).args[0]) == 'f'
         rep.check(ok, 'CALL-FAITHFUL', site,
                   'builtin overload must be called with *args [, **kwargs]',
                   {'star': st, 'kw': kws}, line=c.lineno)
@@ -472,7 +488,7 @@ def check(model, rep, tier):
     if isinstance(t, ast.Try) and any(x in ex_calls for b in t.body for x in ast.walk(b)):
       for h in t.handlers:
         acts = [c for s in h.body for c in ast.walk(s) if isinstance(c, ast.Call)
-                and _action_kind(c, fparams)]
+                and _action_kind(c, fparams, cc)]
         ends_raise = isinstance(h.body[-1], ast.Raise) and h.body[-1].exc is None
         if acts or not ends_raise:
           ok = False
